@@ -234,7 +234,13 @@ def match_template(template, program):
                     val = float(res[-1])
 
                 if key in argmatch:
-                    if argmatch[key] != val:
+                    # a value recovered by solving an expression differs from the value read
+                    # directly from another argument by float rounding: compare with a tolerance
+                    try:
+                        same = np.all(np.isclose(argmatch[key], val, rtol=1e-9, atol=1e-12))
+                    except TypeError:
+                        same = np.all(argmatch[key] == val)
+                    if not same:
                         raise TemplateError("Template parameter {} matches inconsistent values: "
                                             "{} and {}".format(key, val, argmatch[key]))
 
